@@ -266,8 +266,8 @@ def run_fresh(shard, acc):
 
 
 def plan(tier, seed):
-    depth = 4 if tier == "quick" else 5
-    nrand = 12000 if tier == "quick" else 500000
+    depth = 5 if tier == "quick" else 6
+    nrand = 36000 if tier == "quick" else 500000
     nparts = 16 if tier == "quick" else 48
     shards = [dict(kind="fresh", seed=seed, nrand=8 if tier == "quick" else 200)]
     for i in range(nparts):
